@@ -77,10 +77,14 @@ def _regen(bdir, gen, tool, src):
     if tool == "bison":
         cmd = ["bison", "-d", "-Wno-yacc", "-Wno-other", "-o", out, srcp]
     else:
-        cmd = ["flex", "-o", out, srcp]
-    r = subprocess.run(cmd, stdout=subprocess.PIPE, stderr=subprocess.STDOUT, text=True)
+        # the .l files carry `%option outfile="lex.yy.c"`, which overrides -o: take the scanner from stdout instead
+        cmd = ["flex", "-t", srcp]
+    r = subprocess.run(cmd, stdout=subprocess.PIPE, stderr=subprocess.PIPE, text=True)
     if r.returncode != 0:
-        raise BuildError("generator failed: %s\n%s" % (" ".join(cmd), r.stdout[-3000:]))
+        raise BuildError("generator failed: %s\n%s" % (" ".join(cmd), (r.stdout + r.stderr)[-3000:]))
+    if tool != "bison":
+        with open(out, "w") as f:
+            f.write(r.stdout)
     return out
 
 
